@@ -41,6 +41,13 @@ Theorem C14_lower_importfrom : forall g p m names lv, n_kind g = NGlobal ->
 Proof. exact lower_importfrom_shape. Qed.
 Print Assumptions C14_lower_importfrom.
 
+(* ONE import statement naming several modules: one expression per module, in the order written (plain, dotted and aliased
+   names mixed in any way) *)
+Theorem C14_lower_import_in_order : forall n names, n_kind n = NGlobal ->
+  lower_import n names = inl (map (fun al => NamedExpr (import_bound al) (import_value al)) names).
+Proof. exact lower_import_in_order. Qed.
+Print Assumptions C14_lower_import_in_order.
+
 Example C14_nonvacuous :
   stmt_from ex_exists ex_attr (mkW [] []) ["pkg"]%string [("sub", None); ("mod", Some "m")]%string
   = Some (mkW [["pkg"]; ["pkg"; "sub"]; ["pkg"; "mod"]]%string [["pkg"]; ["pkg"; "sub"]; ["pkg"; "mod"]]%string,
